@@ -130,6 +130,22 @@ def run_case(case, strict=False):  # pylint: disable=unused-argument,too-many-br
                 cl.add("second_pass_from_offset")
         except Exception as exc:  # pylint: disable=broad-except
             bad("c18_exception", "a second pass over the held text raised %s: %s" % (type(exc).__name__, exc))
+    if not out and 0 < len(text) <= 400:
+        # the parsers of two handler objects (the live print's and a file pre-processor's) are used in turn: neither disturbs the other
+        try:
+            from octoprint_excluderegion.GcodeHandlers import GcodeHandlers
+            from octoprint_excluderegion.ExcludeRegionState import ExcludeRegionState
+            log = env.make_logger(False)
+            pa, pb = GcodeHandlers(ExcludeRegionState(log), log).gcodeParser, GcodeHandlers(ExcludeRegionState(log), log).gcodeParser
+            got = []
+            for line in pa.parseLines(text):
+                got.append(line.fullText)
+                pb.parse("M117 elsewhere ;c\nG1 X1\n")
+                pb.parse()
+            if "".join(got) != text:
+                bad("c18_lossless", "with another handler object's parser used in between, parseLines turns %r into %r" % (text[:60], "".join(got)[:60]))
+        except Exception as exc:  # pylint: disable=broad-except
+            bad("c18_exception", "two handler objects' parsers used in turn raised %s: %s" % (type(exc).__name__, exc))
     if not out:
         # the parser object is used again for another text (also the empty one), whatever state the walk left it in
         two = "G1 X1 ;c\nM117 hi\r\n"
